@@ -67,6 +67,9 @@ func RowFromProto(r *pb.Row) (Row, error) {
 	if r == nil {
 		return Row{}, fmt.Errorf("received nil Row")
 	}
+	if side := r.GetHalfSide(); side != pb.Row_LEFT && side != pb.Row_RIGHT {
+		return Row{}, fmt.Errorf("invalid Row half side: %d", side)
+	}
 	shrs, err := SharesFromProto(r.GetSharesHalf())
 	if err != nil {
 		return Row{}, err
